@@ -455,6 +455,14 @@ let spec_check (know : int list) (s : sx) =
       (* value level, Map<K, Orswot>: op-based causal delivery without state transfer -- the member table under
          every key is the specification of the knowledge (theorems C05_mapor_values_refine / C01_mapor_converge of
          proofs/MapOrswot.v; T2 needs a merge, T3 leaves member tables alone: never attributed to a known finding) *)
+      (* EXPERIMENT (statement validation): Map<K,Orswot> whose keys are never removed: complete state = spec, merges included *)
+      if !ty = "mapor" && !all_per_actor
+         && not (List.exists (fun (_, o, _) -> Known.is_rm o) !hist) then begin
+        let okv = mapor_nk_ok (history_of (mop_sx or_inst)) k (cmap_sx or_inst s) in
+        stat ("mapnk_" ^ (if okv then "ok" else "bad") ^ (if !merges_seen then "_merge" else ""));
+        if not okv && (try Sys.getenv "VERIF_SHOW_M2" = "1" with Not_found -> false) then
+          Printf.printf "NKBAD case=%s cmd=%s\n" (fst !cur) (snd !cur)
+      end;
       (* EXPERIMENT (statement validation, depth 2): Map<K1, Map<K2, Orswot>> under causal op-based delivery *)
       if !ty = "mapmo" && not !merges_seen && !all_causal then begin
         let i = map_inst or_inst in
